@@ -10,7 +10,12 @@
      k<n>    hand the next n decoder-stream BYTES to Encoder::on_decoder_recv (after the unconsumed tail of earlier calls)
      C<sid>  the decoder abandons the stream (its sections are done) and queues a StreamCancel;   Z<n>  encoder::set_dynamic_table_size
    one word per op is printed; the spec column has one word per op ('*' = unconstrained)
-   hp.new R B T M / hp.get EIC S D T M / vas.* : the index arithmetic alone *)
+   hp.new R B T M / hp.get EIC S D T M / vas.* : the index arithmetic alone
+   qp.e CAP HEX CUTS                 raw encoder-stream bytes handed in pieces (CUTS = dot list of piece sizes, `-` = one piece; what is
+                                     left after the listed sizes is one more piece) to the parser model (P: instructions and bytes used by
+                                     parse_all parse_einstr on tail ++ piece) and to the decoder model (R: dec_on_encoder_recv on them)
+   qp.d CAP BLOCKED EOPS HEX CUTS    the same for raw decoder-stream bytes and an encoder that has encoded the sections EOPS (E ops, `-` = none)
+   one word per piece; the run stops at the first error *)
 let hx bs = String.concat "" (List.map (fun b -> Printf.sprintf "%02x" (int_of_n b)) bs)
 let unhx s = if s = "" then [] else bytes_of_hex s
 let sn = string_of_n
@@ -169,10 +174,106 @@ let run_qs cap blocked ops =
     let head = if has ":panic" then "panic" else if has "E:err" || has "I:err" || has "K:err" || has "Z:err" then "err" else "ok" in
     head ^ " " ^ o ^ " | * " ^ String.trim (Buffer.contents spec)
 
+(* ---- qp.e / qp.d: the instruction parsers on raw bytes ---- *)
+let pi_name = function PiOverflow -> "Overflow" | PiUnexpectedEnd -> "UnexpectedEnd"
+let ps_name = function
+  | PsUnexpectedEnd -> "UnexpectedEnd" | PsInteger e -> "Integer(" ^ pi_name e ^ ")"
+  | PsHuffman MissingBits -> "Huffman(MissingBits)" | PsHuffman Unhandled -> "Huffman(Unhandled)" | PsBufSize -> "BufSize"
+(* ParseError, DecoderError (From<ParseError>) and EncoderError (From<ParseError>) names of a parse error *)
+let perr_parse = function
+  | PEInteger e -> "Integer(" ^ pi_name e ^ ")" | PEString e -> "String(" ^ ps_name e ^ ")"
+  | PEInvalidPrefix _ -> "InvalidPrefix" | PEUnknown _ -> "UnknownPrefix"
+let perr_dec = function
+  | PEInteger e -> "InvalidInteger(" ^ pi_name e ^ ")" | PEString e -> "InvalidString(" ^ ps_name e ^ ")"
+  | PEInvalidPrefix _ | PEUnknown _ -> "UnknownPrefix"
+let perr_enc = function
+  | PEInteger e -> "InvalidInteger(" ^ pi_name e ^ ")" | PEString e -> "InvalidString(" ^ ps_name e ^ ")"
+  | PEInvalidPrefix _ | PEUnknown _ -> "UnknownDecoderInstruction"
+let dec_err_name e = let w = dec_err_word e in
+  if String.length w > 4 && String.sub w 0 4 = "err:" then String.sub w 4 (String.length w - 4) else w
+
+let rec split_at k l = if k = 0 then ([], l) else match l with [] -> ([], []) | x :: r -> let (a, b) = split_at (k - 1) r in (x :: a, b)
+let chunks_of bytes cuts =
+  let sizes = if cuts = "-" then [] else List.map int_of_string (split_on '.' cuts) in
+  let rec go bs = function
+    | [] -> ([], bs)
+    | n :: r -> let (a, b) = split_at n bs in let (cs, rest) = go b r in (a :: cs, rest) in
+  let (cs, rest) = go bytes sizes in
+  if rest <> [] || cs = [] then cs @ [rest] else cs
+
+(* pieces -> words; `step buf` returns (word, Some tail) to go on or (word, None) to stop with head `err` / `panic` *)
+let run_pieces first pieces step =
+  let tail = ref [] and out = ref first and head = ref "ok" and stop = ref false in
+  List.iter (fun c ->
+    if not !stop then begin
+      let buf = !tail @ c in
+      match step buf with
+      | (w, Some tl) -> out := w :: !out; tail := tl
+      | (w, None) -> out := w :: !out; stop := true; head := if w = "panic" then "panic" else "err"
+    end) pieces;
+  !head ^ " " ^ String.concat " " (List.rev !out)
+
+let run_qpe cap bytes cuts =
+  match sys_init cap (n_of_int 100) with
+  | None -> "init-err"
+  | Some s0 ->
+    let t = ref s0.s_dec in
+    run_pieces [] (chunks_of bytes cuts) (fun buf ->
+      let ((xs, tl), st) = parse_all parse_einstr buf in
+      let used = List.length buf - List.length tl in
+      match st with
+      | StopPanic _ -> ("panic", None)
+      | StopIncomplete ->
+          let p = Printf.sprintf "P:%s:%d" (joinor ";" (List.map instrstr xs)) used in
+          (match dec_on_encoder_recv !t xs with
+           | (t1, Ok (now, inc)) ->
+               t := t1;
+               let w = (match inc with Some i -> (match wire_dinstr i with Ok b -> hx b | _ -> "wire-err") | None -> "-") in
+               (Printf.sprintf "%s/R:ok:%s:%d:%s:%s" p (sn now) used w (dstate t1), Some tl)
+           | (t1, Err e) -> (Printf.sprintf "%s/R:err:%s:%s" p (dec_err_name e) (dstate t1), None)
+           | (_, Panic _) -> ("panic", None))
+      | StopError e ->
+          (* the instructions in front of the malformed one have been applied when `?` returns the parse error *)
+          let p = "P:err:" ^ perr_parse e in
+          (match dec_apply !t xs with
+           | (t1, Ok _) -> (Printf.sprintf "%s/R:err:%s:%s" p (perr_dec e) (dstate t1), None)
+           | (t1, Err e') -> (Printf.sprintf "%s/R:err:%s:%s" p (dec_err_name e') (dstate t1), None)
+           | (_, Panic _) -> ("panic", None)))
+
+let run_qpd cap blocked eops bytes cuts =
+  match sys_init cap blocked with
+  | None -> "init-err"
+  | Some s0 ->
+    let s = ref s0 and bad = ref false in
+    List.iter (fun o -> match sys_step !s (match parse_op o with BOp o' -> o' | _ -> failwith "eop") with
+                        | (s1, REncoded _) -> s := s1 | _ -> bad := true) (if eops = "-" then [] else split_on ',' eops);
+    if !bad then "setup-err" else
+    let t = ref !s.s_enc in
+    run_pieces ["S:" ^ estate !t] (chunks_of bytes cuts) (fun buf ->
+      let ((xs, tl), st) = parse_all parse_dinstr buf in
+      let used = List.length buf - List.length tl in
+      match st with
+      | StopPanic _ -> ("panic", None)
+      | StopIncomplete ->
+          let p = Printf.sprintf "P:%s:%d" (joinor ";" (List.map dinstrstr xs)) used in
+          (match enc_on_decoder_recv !t xs with
+           | (t1, Ok _) -> t := t1; (Printf.sprintf "%s/R:ok:%d:%s" p used (estate t1), Some tl)
+           | (t1, Err e) -> (Printf.sprintf "%s/R:err:%s:%s" p (enc_err_name e) (estate t1), None)
+           | (_, Panic _) -> ("panic", None))
+      | StopError e ->
+          let p = "P:err:" ^ perr_parse e in
+          (match enc_on_decoder_recv !t xs with
+           | (t1, Ok _) -> (Printf.sprintf "%s/R:err:%s:%s" p (perr_enc e) (estate t1), None)
+           | (t1, Err e') -> (Printf.sprintf "%s/R:err:%s:%s" p (enc_err_name e') (estate t1), None)
+           | (_, Panic _) -> ("panic", None)))
+
 let vres = function Ok x -> "ok " ^ sn x | Err _ -> "err" | Panic _ -> "panic"
 let handle ws = match ws with
   | [("qs" | "qz" | "qx" | "qc"); cap; blocked; ops] ->
       run_qs (n_of_string cap) (n_of_string blocked) (List.map parse_op (split_on ',' ops))
+  | ["qp.e"; cap; h; cuts] -> run_qpe (n_of_string cap) (if h = "-" then [] else bytes_of_hex h) cuts
+  | ["qp.d"; cap; blocked; eops; h; cuts] ->
+      run_qpd (n_of_string cap) (n_of_string blocked) eops (if h = "-" then [] else bytes_of_hex h) cuts
   | ["hp.new"; r; b; t; m] ->
       (match hp_new (n_of_string r) (n_of_string b) (n_of_string t) (n_of_string m) with
        | Ok p -> Printf.sprintf "ok %s %d %s" (sn p.hp_eic) (if p.hp_sign then 1 else 0) (sn p.hp_delta)
